@@ -172,3 +172,26 @@ ADDED2 = {
 for _p, _t in ADDED2.items():
     if _p in CLAIMS:
         CLAIMS[_p]["text"] += " " + _t
+
+ADDED3 = {
+ "C01": "Round 7: every strconv call in base 10 / 64 bits without a value-changing conversion; lexer writes characters at full width.",
+ "C02": "Round 7: a printer compares a field only with constants; only stored names are quoted; strconv agreement.",
+ "C04": "Round 7: x[:len(x)-k] needs len(x) >= k (builder minimum length); a method on a returned error only under a non-nil test.",
+ "C05": "Round 7: a rune read by a sub-scanner is written, pushed back or pinned before the reader moves on; only reader.read touches the underlying input; full-width writes.",
+ "C06": "Round 7: IdentNeedsQuotes tests every character of the name.",
+ "C07": "Round 7: strconv agreement of Value(); BindValue reads no mutable package state.",
+ "C08": "Round 7: strconv agreement incl. the signedness of the parsed number; unit letters written at full width.",
+ "C09": "Round 7: negated comparisons on floats and UnixNano projections of instants are not the operator they stand for.",
+ "C10": "Round 7: the valuer's zone is its Location field; a nil residual only under a nil test of the condition or of a recursive residual.",
+ "C12": "Round 7: a looked-up type replaces the accumulator only under LessThan; no source skipped on a memo keyed by one of its fields.",
+ "C13": "Round 7: vacuous nil tests on boxed pointers and nil-error method calls in non-parser code; len-k slice bounds.",
+ "C15": "Round 7: every occurrence of a pattern is treated (FindAll/-1); Regexp.Longest never called.",
+ "C16": "Round 7: the comment body is entered after both runes of its opener (C05.consume imported).",
+ "C17": "Round 7: Regexp.Longest (the one mutating, non-concurrent-safe method of a compiled pattern) never called.",
+ "C18": "Round 7: the stripper's name test is not wider than equality; the fold SetTimeRange ends with keeps operator meaning and fractional factors (C09.opcorr/promote imported).",
+ "C19": "Round 7: RequiredPrivileges makes up no error under a condition on the statement's fields.",
+ "C20": "Round 7: a created column is never a copy of another Field; a column is skipped only on a test of its own slot or alias.",
+}
+for _p, _t in ADDED3.items():
+    if _p in CLAIMS:
+        CLAIMS[_p]["text"] += " " + _t
